@@ -278,7 +278,7 @@ class StmtMixin:
         key = self.cur.key
         ctx = self._inv_ctx(st, extra_names)
         for cl in spec.invariant:
-            self.oblige('%s#loop%d.init.%s' % (key, k, cl.label), st, self.goal_of(self.spec.clause(cl.text, ctx)),
+            self.oblige('%s#loop%d.init.%s' % (key, k, cl.label), st, self.goal_of(self.spec.clause(cl.text, ctx), st),
                         'A')
         h = st.fork()
         for nm in sorted(self._assigned_names(node)):
@@ -305,6 +305,8 @@ class StmtMixin:
         ctx_h = self._inv_ctx(h, names)
         for cl in spec.invariant:
             self.assume_clause(h, self.spec.clause(cl.text, ctx_h))
+        for hk in self.reg.loop_hooks:
+            hk(self, h)
         v0 = self.spec.ev_expr(spec.decreases, ctx_h).z if spec.decreases else None
         return h, v0, names
 
@@ -320,7 +322,7 @@ class StmtMixin:
         ctx = self._inv_ctx(st, names)
         for cl in spec.invariant:
             self.oblige('%s#loop%d.preserved.%s' % (key, k, cl.label), st,
-                        self.goal_of(self.spec.clause(cl.text, ctx)), 'A')
+                        self.goal_of(self.spec.clause(cl.text, ctx), st), 'A')
         if v0 is not None:
             v1 = self.spec.ev_expr(spec.decreases, ctx).z
             self.oblige('%s#loop%d.decreases' % (key, k), st, And(v1 < v0, v0 > 0),
